@@ -277,7 +277,7 @@ def entryPairs (a b : List (String × Nat)) : Option (List (Nat × Nat)) :=
   a.mapM fun (name, i) => (b.find? (·.1 = name)).map fun e => (i, e.2)
 
 def showBisim (r : BisimResult) : String :=
-  if r.ok then s!"pairs={r.pairs}" else s!"pairs={r.pairs} word={r.word} why={r.why}"
+  if r.ok then s!"pairs={r.pairs}" else s!"pairs={r.pairs} word={if r.witness.isEmpty then r.word else r.witness} why={r.why}"
 
 def stageChecks (prog : String) (pd : ParsedDef) (dump : Dump) : List String := Id.run do
   let mut out : List String := []
@@ -346,7 +346,7 @@ def stageChecks (prog : String) (pd : ParsedDef) (dump : Dump) : List String := 
     out := out ++ [checkLine prog "dispatch.switch" swOK s!"model {sw} dump {dump.switches}"]
     -- every number stored in `__state` resolves to the arm of the intended state
     let armsOK := (List.range dump.simp.length).all fun s =>
-      inlinedAt dump.simp s && !(dump.simp.st s).initial || dispatch dump.arms (renumber dump.inlined s) == some s
+      inlinedAt dump.simp s || dispatch dump.arms (renumber dump.inlined s) == some s
     out := out ++ [checkLine prog "dispatch.resolve" armsOK ""]
     let stats := s!"INFO {prog} stats states_full={dump.full.length} states_simp={dump.simp.length} inlined={dump.inlined.length} rulesets={dump.entries1.length} ctxs={dump.ctxs.length} removed={dump.full.length - dump.simp.length} cyc={(dump.simp.filter fun s => (gotoSuccs s).any fun t => (dump.simp.st t).preds.length > 1).length}"
     out := out ++ [stats]
